@@ -28,8 +28,8 @@ def jint(v: int) -> dict:
     return {"neg": v < 0, "mag": mag}
 
 
-def E(b: str, n: str = "", o: int = 0) -> dict:
-    return {"b": b, "n": n, "o": o}
+def E(b: str, n: str = "", o: int = 0, m: int = 1) -> dict:
+    return {"b": b, "n": n, "o": o, "m": m}
 
 
 def render_num(v: int, variant: int = 0) -> str:
@@ -43,6 +43,8 @@ def render_e(e: dict, variant: int = 0) -> str:
     if e["b"] == "num":
         return render_num(o, variant)
     base = "$" if e["b"] == "cur" else e["n"]
+    if e.get("m", 1) != 1 and e["b"] != "cur":
+        base = f"{render_num(e['m'], variant)}*{base}"
     if o == 0:
         return base
     return f"{base} + {render_num(o, variant)}" if o > 0 else f"{base} - {render_num(-o, variant)}"
@@ -72,7 +74,7 @@ def render_prog(prog: List[dict]) -> str:
 
 def to_json_prog(prog: List[dict]) -> List[dict]:
     def je(e):
-        return {"b": e["b"], "n": e["n"], "o": jint(e["o"])}
+        return {"b": e["b"], "n": e["n"], "o": jint(e["o"]), "m": jint(e.get("m", 1))}
     out = []
     for s in prog:
         k = s["k"]
